@@ -198,19 +198,18 @@ def RW.ensureMinimum (c : RW) (inc now : Int) : RW :=
     let n := min inc c.cap
     if n > c.size then ({ c with size := n }).startEpoch now else c.startEpoch now
 
+/-- the first data starts the auto-tuning epoch (`if c.highestReceived == 0 { c.startNewAutoTuningEpoch(now) }`) -/
+def RW.noteFirst (c : RW) (now : Int) : RW := if c.highest = 0 then c.startEpoch now else c
+
 /-- `UpdateHighestReceived` (stream) + `IncrementHighestReceived` (connection) for a new highest offset:
     (stream, connection, FLOW_CONTROL_ERROR?) -/
 def recvData (st conn : RW) (offset now : Int) : RW × RW × Bool :=
   if offset ≤ st.highest then (st, conn, false)
+  else if offset > st.window then ({ st.noteFirst now with highest := offset }, conn, true)
   else
-    let st1 := if st.highest = 0 then st.startEpoch now else st
-    let inc := offset - st1.highest
-    let st2 := { st1 with highest := offset }
-    if st2.highest > st2.window then (st2, conn, true)
-    else
-      let c1 := if conn.highest = 0 then conn.startEpoch now else conn
-      let c2 := { c1 with highest := c1.highest + inc }
-      (st2, c2, decide (c2.highest > c2.window))
+    ({ st.noteFirst now with highest := offset },
+     { conn.noteFirst now with highest := conn.highest + (offset - st.highest) },
+     decide (conn.highest + (offset - st.highest) > conn.window))
 
 /-- `AddBytesRead` (stream and connection); the Bool = a MAX_STREAM_DATA is now queued -/
 def readData (st conn : RW) (n : Int) : RW × RW × Bool :=
